@@ -425,13 +425,24 @@ class TextFlow:
                             self._op(f, c, "predicate", "substring test %r in <side string>" % (lit,), rl, literal=lit)
                     elif "T" in ll:
                         self._op(f, c, "component", "component in %s" % unparse(r)[:30], ll)
+                    if "T" in ll and "T" in rl and not isinstance(l, ast.Constant):
+                        # textual identity between two pieces of *given* text: two spellings of one molecule differ
+                        self._op(f, c, "predicate", "identity of given text: %s" % unparse(c)[:50], ll | rl)
                 elif isinstance(op, (ast.Eq, ast.NotEq)):
                     for a, al, b in ((l, ll, r), (r, rl, l)):
                         if "T" in al and isinstance(b, ast.Constant) and isinstance(b.value, str):
                             self._op(f, c, "component", "whole-value equality with %r" % b.value, al, literal=b.value)
+                    if "T" in ll and "T" in rl and not isinstance(l, ast.Constant) and not isinstance(r, ast.Constant):
+                        self._op(f, c, "predicate", "identity of given text: %s" % unparse(c)[:50], ll | rl)
                 elif isinstance(op, (ast.Lt, ast.Gt, ast.LtE, ast.GtE)):
                     if "T" in (ll | rl):
                         self._op(f, c, "predicate", "ordering on text", ll | rl)
+                # length of a SMILES string (not: number of components, not: emptiness)
+                for a, b in ((l, r), (r, l)):
+                    if isinstance(a, ast.Call) and isinstance(a.func, ast.Name) and a.func.id == "len" and a.args:
+                        al = lab(a.args[0])
+                        if "T" in al and "L" not in al and not (isinstance(b, ast.Constant) and b.value in (0, 1) ):
+                            self._op(f, c, "predicate", "length of given text: %s" % unparse(c)[:50], al)
 
     def _call_package(self, f: Func, c: ast.Call, q: str, lab, ctor: bool = False) -> Labels:
         callee = self.prog.functions[q]
